@@ -7,6 +7,7 @@ from repid.connections.abc import MessageBrokerT
 from repid.connections.in_memory.consumer import _InMemoryConsumer
 from repid.connections.in_memory.utils import DummyQueue, Message, wait_until
 from repid.logger import logger
+from repid.message import MessageCategory
 
 if TYPE_CHECKING:
     from datetime import datetime
@@ -55,8 +56,16 @@ class InMemoryMessageBroker(MessageBrokerT):
         for msg in q.processing:
             if msg.key.id_ == key.id_:
                 q.processing.remove(msg)
-                q.holders.pop(msg, None)
-                q.simple.put_nowait(msg)
+                taken_by = q.holders.pop(msg, None)
+                category = getattr(taken_by, "category", MessageCategory.NORMAL)
+                # the message goes back to where it was taken from
+                slot = wait_until(msg.parameters) if category == MessageCategory.DELAYED else None
+                if category == MessageCategory.DEAD:
+                    q.dead.insert(0, msg)
+                elif slot is not None:
+                    q.delayed.setdefault(slot, []).insert(0, msg)
+                else:
+                    q.simple.put_nowait(msg)
                 break
 
         await asyncio.sleep(0)
